@@ -7,6 +7,7 @@ rung; every human bell of a row is put into that set when the row starts unless 
 on that stroke; and only hearing that bell on that stroke takes it out.
 -/
 import Wheatley.Model.World
+import Wheatley.Lemmas.SoloWorld
 namespace Wheatley.C09
 
 variable {K : Type} [Num K]
@@ -190,5 +191,60 @@ theorem first_row_arms (wr : WaitR K) (bell : Nat) :
     unfold WaitR.expect at h
     simp only [WaitR.initialise, bne_self_eq_false, Bool.false_eq_true, if_false] at h
     simp [WaitR.early, WaitR.setExpected] at h
+
+section Waiting
+open Generated
+variable {F : Type} [Field F] [LinearOrder F] [IsStrictOrderedRing F]
+
+theorem poll_pos : (0 : F) < Num.ofQ waitSleepTime := by
+  simp [num_ofQ, waitSleepTime]
+
+/-- **However long it takes**: while the awaited human bell has not been heard on the stroke being rung
+(and nobody calls Look To or Stop Touch), the main thread polls — for any number `n` of polls, that is for
+milliseconds or for minutes.  Nothing is emitted, the Bot does not move, the clock advances by `n` polls. -/
+theorem waits_as_long_as_it_takes (wt : F → F) (endTime : F) (wr : WaitR F) (bell : Nat) (hand : Bool)
+    (hexp : bell ∈ wr.expected hand) (hret : wr.shouldReturn = false) :
+    ∀ (n fuel : Nat) (w : World F) (d : F),
+      w.pc = .userPoll bell true hand d → w.rh.wait = some wr →
+      w.now + (n : F) * Num.ofQ waitSleepTime ≤ endTime →
+      ∃ w' : World F, World.run wt endTime (fuel + n) w [] = World.run wt endTime fuel w' [] ∧
+        w'.obs = w.obs ∧ w'.bot = w.bot ∧ w'.rh.wait = some wr ∧
+        w'.now = w.now + (n : F) * Num.ofQ waitSleepTime ∧
+        w'.pc = .userPoll bell true hand (d + (n : F) * Num.ofQ waitSleepTime) := by
+  intro n
+  induction n with
+  | zero =>
+    intro fuel w d hpc hw _
+    exact ⟨w, rfl, rfl, rfl, hw, by simp, by simpa using hpc⟩
+  | succ k ih =>
+    intro fuel w d hpc hw hend
+    have hp := poll_pos (F := F)
+    have hstep : w.mainStep wt =
+        ({ w with pc := .userPoll bell true hand (d + Num.ofQ waitSleepTime) }, .sleep (Num.ofQ waitSleepTime)) := by
+      rw [poll_returns_to_test w wt bell true hand d hpc]
+      exact wait_holds w wt wr bell hand _ true hw hexp (by simp [hret])
+    have hk : (((k + 1 : Nat) : F)) = (k : F) + 1 := by push_cast; ring
+    have hnot : ¬ endTime < ({ w with pc := PC.userPoll bell true hand (d + Num.ofQ waitSleepTime) } : World F).now
+        + Num.ofQ waitSleepTime := by
+      show ¬ endTime < w.now + _
+      rw [hk] at hend
+      intro h
+      have : (0 : F) ≤ (k : F) * Num.ofQ waitSleepTime := mul_nonneg (Nat.cast_nonneg k) (le_of_lt hp)
+      nlinarith
+    have r1 := run_sleep wt endTime (fuel + k) w _ _ hstep hnot hp
+    set w1 : World F := { ({ w with pc := PC.userPoll bell true hand (d + Num.ofQ waitSleepTime) } : World F) with
+      now := w.now + Num.ofQ waitSleepTime } with hw1
+    have hend1 : w1.now + (k : F) * Num.ofQ waitSleepTime ≤ endTime := by
+      show w.now + Num.ofQ waitSleepTime + _ ≤ _
+      rw [hk] at hend; nlinarith
+    obtain ⟨w2, hrun, hobs, hbot, hwait, hnow, hpc2⟩ :=
+      ih fuel w1 (d + Num.ofQ waitSleepTime) rfl hw hend1
+    refine ⟨w2, ?_, hobs, hbot, hwait, ?_, ?_⟩
+    · have e : fuel + (k + 1) = fuel + k + 1 := by omega
+      rw [e, r1]; exact hrun
+    · rw [hnow, hk]; show w.now + Num.ofQ waitSleepTime + _ = _; ring
+    · rw [hpc2, hk]; congr 1; ring
+
+end Waiting
 
 end Wheatley.C09
